@@ -201,6 +201,27 @@ func c04table(args []string) error {
 			if s := h1.Sum(nil); string(s) != string(got) {
 				got = append([]byte("WRITE!="), s...)
 			}
+			// the largest table message once more, repeated to 3 MiB + 17 bytes: one Write, one-shot, and 4 KiB Writes agree (the
+			// digest is a function of the byte string; TLC's value for the chunked form is established on the shorter messages)
+			if len(m) >= 65537 && string(got[:1]) != "S" && string(got[:1]) != "W" {
+				bigm := bytes.Repeat(m, (3<<20)/len(m)+1)[:3<<20+17]
+				hb := sm3.New()
+				for off := 0; off < len(bigm); off += 4096 {
+					end := off + 4096
+					if end > len(bigm) {
+						end = len(bigm)
+					}
+					hb.Write(bigm[off:end])
+				}
+				chunked := hb.Sum(nil)
+				h1b := sm3.New()
+				h1b.Write(bigm)
+				if one := h1b.Sum(nil); string(one) != string(chunked) {
+					got = append([]byte("BIGWRITE!="), one...)
+				} else if os := sm3.Sm3Sum(bigm); string(os) != string(chunked) {
+					got = append([]byte("BIGONESHOT!="), os...)
+				}
+			}
 			// Sum(b) for every prefix length 0..70 and every spare capacity 0..40 behind it (none, less than a digest, exactly
 			// a digest, more): b || digest, the prefix kept, the object usable afterwards
 			if len(m) <= 200 && string(got[:1]) != "S" && string(got[:1]) != "W" {
